@@ -4,6 +4,7 @@ package c12
 import (
 	"fmt"
 	"sort"
+	"sync/atomic"
 	"testing"
 
 	"github.com/welllog/golib/mapz"
@@ -140,7 +141,14 @@ func execCall(s *mapz.SafeKV[int, int], th int, cl call) lin.Op {
 		o.OK = s.SetX(cl.Key, cl.Val)
 	case "delete":
 		o.Keys = append([]int(nil), cl.Keys...)
-		s.Delete(cl.Keys...)
+		arg := append(make([]int, 0, len(cl.Keys)+2), cl.Keys...) // the caller's own list of keys
+		s.Delete(arg...)
+		for i := range arg {
+			if arg[i] != o.Keys[i] {
+				msg := fmt.Sprintf("Delete(%v...) changed the caller's slice of keys to %v", o.Keys, arg)
+				argDamage.CompareAndSwap(nil, &msg)
+			}
+		}
 	case "clear":
 		s.Clear()
 	case "len":
@@ -196,6 +204,7 @@ func execThread(s *mapz.SafeKV[int, int], th int, calls []call, rec *recorder) {
 
 func newKV(c kvCase) *mapz.SafeKV[int, int] {
 	conc.Reset()
+	argDamage.Store(nil)
 	capHint := 2
 	if len(c.Initial) == 0 {
 		capHint = 0 // nothing allocated up front by the caller: the first writes of the program are the first writes ever
@@ -207,7 +216,13 @@ func newKV(c kvCase) *mapz.SafeKV[int, int] {
 	return s
 }
 
+// argDamage holds the first report of a call that modified an argument the caller still owns.
+var argDamage atomic.Pointer[string]
+
 func finish(s *mapz.SafeKV[int, int], c kvCase, ops []lin.Op, r *pb.Rec) error {
+	if m := argDamage.Swap(nil); m != nil {
+		return fmt.Errorf("%s", *m)
+	}
 	th := len(c.Threads)
 	// quiescent observers
 	for _, k := range []string{"len", "keys", "values"} {
